@@ -184,4 +184,28 @@ theorem deleteW_noAlias (w : World) (k : Nat) (h : NoAlias w) (hs : SortedKV w.f
     · intro j hj; exact hrange j (hperm.mem_iff.mp hj)
     · rw [hperm.length_eq]; exact hsz
 
+/-- `Erase`: every node of the focused tree goes back to the free list, the tree becomes empty -/
+def eraseW (w : World) : World := { w with gaps := w.gaps ++ ids w.focus, focus := Tree.nil }
+
+/-- erasing a tree keeps the allocator exact: the freed indices are now gaps, nothing is lost or duplicated, and
+    `Used()` drops by exactly the number of erased elements -/
+theorem eraseW_noAlias (w : World) (h : NoAlias w) :
+    NoAlias (eraseW w) ∧ ids (eraseW w).focus = [] ∧
+    (eraseW w).gaps.length = w.gaps.length + (ids w.focus).length := by
+  obtain ⟨hnd, hrange, hsz⟩ := h
+  have hperm : (allIds (eraseW w)).Perm (allIds w) := by
+    unfold allIds eraseW ids
+    simp only [Tree.toList, List.map_nil, List.nil_append]
+    -- others ++ (gaps ++ F)  ~  F ++ (others ++ gaps)
+    have h1 : (w.others ++ (w.gaps ++ List.map (·.1) w.focus.toList)).Perm
+        ((w.others ++ w.gaps) ++ List.map (·.1) w.focus.toList) := by
+      rw [List.append_assoc]
+    exact h1.trans List.perm_append_comm
+  refine ⟨⟨hperm.nodup_iff.mpr hnd, ?_, ?_⟩, ?_, ?_⟩
+  · intro j hj; exact hrange j (hperm.mem_iff.mp hj)
+  · show (eraseW w).size = 0 ∨ (allIds (eraseW w)).length + 1 = (eraseW w).size
+    rw [hperm.length_eq]; exact hsz
+  · simp [eraseW, ids, Tree.toList]
+  · simp [eraseW]
+
 end RbM
